@@ -8,6 +8,9 @@ for f in sys.argv[2:]:
         c = l.rstrip('\n').split('\t')
         if len(c) >= 6: res[(c[0], c[1])] = c
 HIST = {
+ ('seed8','C04'): 'missed at first (needs a self-loop on a node infected by a neighbour; C09 had such graphs, C04 did not): a seeded self-loop battery for the four Markovian simulators was added to C04; caught since',
+ ('seed8','C16'): 'missed at first (needs a thousand rejections in a row): a persistent-rejection probe (a candidate whose accept test fails in every round is never returned) runs on every 12th history; caught since',
+ ('seed8','C19'): 'missed at first (needs degree pairs that never share an edge, so that a read of the defaultdict rows of get_Pnk inserts zeros): the test graph of the dynamic battery got a pendant node; caught since by the snapshot of Pnk (C06/C07 caught the KeyError it causes with plain-dict rows all along)',
  ('seed6','C02'): 'the check crashed at first (the trace oracle indexed a shorter candidate list): an oracle that cannot follow the trace is now a broken correspondence on that input; the run goes on and reports the missing row with a replay',
  ('seed6','C06'): 'missed at first (needs initial_infecteds as a numpy array or empty): the ODE initial sets are now handed over as list / tuple / set / ndarray / dict keys; caught since',
  ('seed6','C14'): 'caught, then missed after an unrelated change of the RNG stream, i.e. by luck: the ODE half now runs twice as many cases, two thirds with explicit initial sets; caught under seeds 0-3',
